@@ -156,7 +156,9 @@ def main():
         rule_log.extend(u.rule_log)
         smt_ms += r['smt_ms'] or 0
         # vacuity guard (ii)
-        failing_twins = {d['owner'] for d in r['diags'] if d['owner_kind'] == 'vacuity' and 'VACUITY-GUARD' in d['clause']}
+        # any definite failure inside a twin means `false` was not proved for it (Verus reports only the first failures of a
+        # function, so the VACUITY-GUARD clause itself may be hidden behind another failed obligation of the same body)
+        failing_twins = {d['owner'] for d in r['diags'] if d['owner_kind'] == 'vacuity'}
         # a twin on which the solver exhausted its (small) resource limit did not prove `false` either
         failing_twins |= {d['owner'] for d in r['undecided'] if d['owner_kind'] == 'vacuity'}
         for s in u.segments:
